@@ -273,6 +273,7 @@ func specMsgFieldsOK(stream int, function int, waitBit int, sessionID int, nSyst
 //@   invariant !has_space_rune(self.name)
 
 //@ func (*DataMessage).checkRep
+//@   establishes
 //@   property C12 C18 C06
 //@   panics_iff has_space_rune(node.name) || !specMsgFieldsOK(node.stream, node.function, node.waitBit, node.sessionID, len(node.systemBytes), node.direction)
 //@   loop 1
@@ -563,6 +564,7 @@ func specBoolByte(b bool) int {
 //@   invariant forall s string, t string :: has(self.variables, s) && has(self.variables, t) && s != t ==> self.variables[s] != self.variables[t]
 
 //@ func (*IntNode).checkRep
+//@   establishes
 //@   property C12 C13
 //@   let okW = specIsIntW(node.byteSize)
 //@   panics_if !okW
@@ -604,6 +606,7 @@ func specBoolByte(b bool) int {
 //@   invariant forall s string, t string :: has(self.variables, s) && has(self.variables, t) && s != t ==> self.variables[s] != self.variables[t]
 
 //@ func (*UintNode).checkRep
+//@   establishes
 //@   property C12 C13
 //@   let okW = specIsIntW(node.byteSize)
 //@   panics_if !okW
@@ -645,6 +648,7 @@ func specBoolByte(b bool) int {
 //@   invariant forall s string, t string :: has(self.variables, s) && has(self.variables, t) && s != t ==> self.variables[s] != self.variables[t]
 
 //@ func (*BinaryNode).checkRep
+//@   establishes
 //@   property C12 C13
 //@   panics_if exists i int :: 0 <= i && i < len(node.values) && !(0 <= node.values[i] && node.values[i] < 256)
 //@   panics_only_if (exists s string :: has(node.variables, s)) || (exists i int :: 0 <= i && i < len(node.values) && !(0 <= node.values[i] && node.values[i] < 256))
@@ -682,6 +686,7 @@ func specBoolByte(b bool) int {
 //@   invariant forall s string, t string :: has(self.variables, s) && has(self.variables, t) && s != t ==> self.variables[s] != self.variables[t]
 
 //@ func (*BooleanNode).checkRep
+//@   establishes
 //@   property C12 C13
 //@   panics_only_if exists s string :: has(node.variables, s)
 //@   ensures forall s string :: has(node.variables, s) ==> 0 <= node.variables[s] && node.variables[s] < len(node.values) && !node.values[node.variables[s]] && re_match(specVarNamePattern(), s)
@@ -708,6 +713,7 @@ func specBoolByte(b bool) int {
 // ASCIINode factories and rep check
 
 //@ func (*ASCIINode).checkRep
+//@   establishes
 //@   property C12 C13 C15
 //@   let valOK = node.variable.name == "" && node.variable.minLength == 0 && node.variable.maxLength == 0 && (forall i int :: 0 <= i && i < len(node.value) ==> node.value[i] < 128)
 //@   let varOK = node.value == "" && re_match(specVarNamePattern(), node.variable.name) && node.variable.minLength >= 0 && node.variable.maxLength >= -1 && (node.variable.maxLength == -1 || node.variable.minLength <= node.variable.maxLength)
@@ -729,3 +735,117 @@ func specBoolByte(b bool) int {
 //@   panics_iff !(re_match(specVarNamePattern(), name) && minLength >= 0 && maxLength >= -1 && (maxLength == -1 || minLength <= maxLength))
 //@   ensures typeis(result, *ASCIINode) && fresh(result) && !r.isValue && r.value == ""
 //@   ensures r.variable.name == name && r.variable.minLength == minLength && r.variable.maxLength == maxLength
+
+// ---------------------------------------------------------------------------------------------
+// FloatNode factory and rep check
+
+//@ type FloatNode invariant forall i int :: 0 <= i && i < len(self.values) ==> !isnan(self.values[i]) && !isinf(self.values[i]) && fneg(ite(self.byteSize == 4, maxfloat32(), maxfloat64())) <= self.values[i] && self.values[i] <= ite(self.byteSize == 4, maxfloat32(), maxfloat64())
+//@   invariant forall s string :: has(self.variables, s) ==> 0 <= self.variables[s] && self.variables[s] < len(self.values) && self.values[self.variables[s]] == 0 && re_match(specVarNamePattern(), s)
+//@   invariant forall s string, t string :: has(self.variables, s) && has(self.variables, t) && s != t ==> self.variables[s] != self.variables[t]
+
+//@ func (*FloatNode).checkRep
+//@   establishes
+//@   property C12 C13
+//@   let okW = specIsFloatW(node.byteSize)
+//@   let mx = ite(node.byteSize == 4, maxfloat32(), maxfloat64())
+//@   panics_if !okW
+//@   panics_if okW && (exists i int :: 0 <= i && i < len(node.values) && !(!isnan(node.values[i]) && !isinf(node.values[i]) && fneg(mx) <= node.values[i] && node.values[i] <= mx))
+//@   panics_only_if !okW || (exists s string :: has(node.variables, s)) || (exists i int :: 0 <= i && i < len(node.values) && !(!isnan(node.values[i]) && !isinf(node.values[i]) && fneg(mx) <= node.values[i] && node.values[i] <= mx))
+//@   ensures forall i int :: 0 <= i && i < len(node.values) ==> !isnan(node.values[i]) && !isinf(node.values[i]) && fneg(mx) <= node.values[i] && node.values[i] <= mx
+//@   ensures forall s string :: has(node.variables, s) ==> 0 <= node.variables[s] && node.variables[s] < len(node.values) && node.values[node.variables[s]] == 0 && re_match(specVarNamePattern(), s)
+//@   ensures forall s string, t string :: has(node.variables, s) && has(node.variables, t) && s != t ==> node.variables[s] != node.variables[t]
+//@   loop 1
+//@     invariant okW && 0 <= rangeindex+1 && rangeindex+1 <= len(node.values) && max == mx
+//@     invariant forall k int :: 0 <= k && k <= rangeindex ==> !isnan(node.values[k]) && !isinf(node.values[k]) && fneg(mx) <= node.values[k] && node.values[k] <= mx
+//@   loop 2
+//@     invariant okW && forall k int :: 0 <= k && k < len(node.values) ==> !isnan(node.values[k]) && !isinf(node.values[k]) && fneg(mx) <= node.values[k] && node.values[k] <= mx
+//@     invariant forall s string :: has(itervisited, s) ==> has(node.variables, s) && 0 <= node.variables[s] && node.variables[s] < len(node.values) && node.values[node.variables[s]] == 0 && re_match(specVarNamePattern(), s) && has(visited, node.variables[s])
+//@     invariant forall s string, t string :: has(itervisited, s) && has(itervisited, t) && s != t ==> node.variables[s] != node.variables[t]
+//@     invariant fresh(visited)
+
+//@ func NewFloatNode
+//@   property C12 C13 C09
+//@   let okW = specIsFloatW(byteSize)
+//@   let mx = ite(byteSize == 4, maxfloat32(), maxfloat64())
+//@   let r = cast(result, *FloatNode)
+//@   panics_if !okW
+//@   panics_if okW && len(values)*byteSize > 16777215
+//@   panics_if exists i int :: 0 <= i && i < len(values) && !isint(values[i]) && !isfloat(values[i]) && !typeis(values[i], string)
+//@   panics_if okW && (exists i int :: 0 <= i && i < len(values) && isfloat(values[i]) && !(!isnan(fval(values[i])) && !isinf(fval(values[i])) && fneg(mx) <= fval(values[i]) && fval(values[i]) <= mx))
+//@   ensures typeis(result, *FloatNode) && fresh(result) && r.byteSize == byteSize && len(r.values) == len(values)
+//@   ensures forall i int :: 0 <= i && i < len(values) ==> (isint(values[i]) && r.values[i] == float64(ival(values[i]))) || (isfloat(values[i]) && r.values[i] == fval(values[i])) || (typeis(values[i], string) && r.values[i] == 0 && has(r.variables, sval(values[i])) && r.variables[sval(values[i])] == i)
+//@   panics_only_if !okW || len(values)*byteSize > 16777215 || (exists i int :: 0 <= i && i < len(values) && !(isfloat(values[i]) && !isnan(fval(values[i])) && !isinf(fval(values[i])) && fneg(mx) <= fval(values[i]) && fval(values[i]) <= mx))
+//@   loop 1
+//@     invariant 0 <= rangeindex+1 && rangeindex+1 <= len(values) && len(nodeValues) == rangeindex+1 && fresh(nodeValues) && fresh(nodeVariables)
+//@     invariant forall k int :: 0 <= k && k <= rangeindex ==> (isint(values[k]) && nodeValues[k] == float64(ival(values[k]))) || (isfloat(values[k]) && nodeValues[k] == fval(values[k])) || (typeis(values[k], string) && nodeValues[k] == 0 && has(nodeVariables, sval(values[k])) && nodeVariables[sval(values[k])] == k)
+//@     invariant forall s string :: has(nodeVariables, s) ==> 0 <= nodeVariables[s] && nodeVariables[s] <= rangeindex && typeis(values[nodeVariables[s]], string) && sval(values[nodeVariables[s]]) == s
+
+// ---------------------------------------------------------------------------------------------
+// ListNode factory, rep check, variable listing
+
+//@ type ListNode invariant len(self.values) <= 16777215
+//@   invariant forall i int :: 0 <= i && i < len(self.values) ==> typeis(self.values[i], ItemNode)
+//@   invariant forall s string :: has(self.variables, s) ==> 0 <= self.variables[s] && self.variables[s] < len(self.values) && typeis(self.values[self.variables[s]], emptyItemNode)
+//@   invariant forall s string :: has(self.variables, s) ==> re_match(specVarNamePattern(), s) || (re_match(specEllipsisPattern(), s) && self.variables[s] != 0)
+//@   invariant forall s string, t string :: has(self.variables, s) && has(self.variables, t) && s != t ==> self.variables[s] != self.variables[t]
+//@   invariant forall s string, t string :: has(self.variables, s) && has(self.variables, t) && !re_match(specVarNamePattern(), s) && !re_match(specVarNamePattern(), t) ==> s == t
+
+//@ func (*ListNode).variablesSwapKeyValue
+//@   inline
+//@   loop 1
+//@     invariant fresh(result)
+
+//@ func (*ListNode).Variables
+//@   property C16 C11 C17
+//@   ensures fresh(result)
+//@   loop 1
+//@     invariant fresh(result) && 0 <= rangeindex+1 && rangeindex+1 <= len(node.values)
+
+//@ func (*ListNode).checkRep
+//@   establishes
+//@   property C12 C16
+//@   maypanic
+//@   requires forall i int :: 0 <= i && i < len(node.values) ==> typeis(node.values[i], ItemNode)
+//@   ensures forall s string :: has(node.variables, s) ==> 0 <= node.variables[s] && node.variables[s] < len(node.values) && typeis(node.values[node.variables[s]], emptyItemNode)
+//@   ensures forall s string :: has(node.variables, s) ==> re_match(specVarNamePattern(), s) || (re_match(specEllipsisPattern(), s) && node.variables[s] != 0)
+//@   ensures forall s string, t string :: has(node.variables, s) && has(node.variables, t) && s != t ==> node.variables[s] != node.variables[t]
+//@   ensures forall s string, t string :: has(node.variables, s) && has(node.variables, t) && !re_match(specVarNamePattern(), s) && !re_match(specVarNamePattern(), t) ==> s == t
+//@   loop 1
+//@     invariant fresh(visitedIndex)
+//@     invariant forall s string :: has(itervisited, s) ==> has(node.variables, s) && 0 <= node.variables[s] && node.variables[s] < len(node.values) && typeis(node.values[node.variables[s]], emptyItemNode) && has(visitedIndex, node.variables[s])
+//@     invariant forall s string :: has(itervisited, s) ==> re_match(specVarNamePattern(), s) || (re_match(specEllipsisPattern(), s) && node.variables[s] != 0)
+//@     invariant forall s string, t string :: has(itervisited, s) && has(itervisited, t) && s != t ==> node.variables[s] != node.variables[t]
+//@     invariant forall s string, t string :: has(itervisited, s) && has(itervisited, t) && !re_match(specVarNamePattern(), s) && !re_match(specVarNamePattern(), t) ==> s == t
+//@     invariant (exists s string :: has(itervisited, s) && !re_match(specVarNamePattern(), s)) ==> ellipsisExist
+//@   loop 2
+//@     invariant fresh(foundVarName)
+
+//@ func NewListNode
+//@   property C12 C13 C09
+//@   maypanic
+//@   let r = cast(result, *ListNode)
+//@   panics_if len(values) > 16777215
+//@   panics_if exists i int :: 0 <= i && i < len(values) && !typeis(values[i], ItemNode) && !typeis(values[i], string)
+//@   ensures typeis(result, *ListNode) && fresh(result) && len(r.values) == len(values)
+//@   ensures forall i int :: 0 <= i && i < len(values) ==> (typeis(values[i], ItemNode) && r.values[i] == values[i]) || (typeis(values[i], string) && typeis(r.values[i], emptyItemNode) && has(r.variables, sval(values[i])) && r.variables[sval(values[i])] == i)
+//@   ensures forall s string :: has(r.variables, s) ==> 0 <= r.variables[s] && r.variables[s] < len(values) && typeis(values[r.variables[s]], string) && sval(values[r.variables[s]]) == s
+//@   loop 1
+//@     invariant 0 <= rangeindex+1 && rangeindex+1 <= len(values) && len(nodeValues) == rangeindex+1 && fresh(nodeValues) && fresh(nodeVariables)
+//@     invariant forall k int :: 0 <= k && k <= rangeindex ==> typeis(nodeValues[k], ItemNode)
+//@     invariant forall k int :: 0 <= k && k <= rangeindex ==> (typeis(values[k], ItemNode) && nodeValues[k] == values[k]) || (typeis(values[k], string) && typeis(nodeValues[k], emptyItemNode) && has(nodeVariables, sval(values[k])) && nodeVariables[sval(values[k])] == k)
+//@     invariant forall s string :: has(nodeVariables, s) ==> 0 <= nodeVariables[s] && nodeVariables[s] <= rangeindex && typeis(values[nodeVariables[s]], string) && sval(values[nodeVariables[s]]) == s
+
+//@ iface ItemNode.Variables
+//@   property C16 C11
+//@   ensures fresh(result)
+//@   defines len(result) == nvars(recv)
+
+//@ iface ItemNode.ToBytes
+//@   property C02 C11
+//@   ensures fresh(result)
+//@   defines len(result) == enc_len(recv)
+//@   defines forall k int :: 0 <= k && k < len(result) ==> result[k] == enc_at(recv, k)
+
+//@ iface ItemNode.Size
+//@   property C16
+//@   ensures result >= -1
